@@ -53,7 +53,7 @@ def satDict (E : Ext) (env : Env) (kt vt : PTy) : List (PyVal × PyVal) → Bool
 end
 
 /-- struct, struct-tree or union validator (whatever the wrappers) -/
-def isUserTy : PTy → Bool
+def isUserTyC08 : PTy → Bool
   | .struct .. | .tree .. | .union .. => true
   | _ => false
 
@@ -97,7 +97,7 @@ end
 class only; anything else is validated. -/
 def memberSat (E : Ext) (env : Env) (t : PTy) (x : PyVal) : Bool :=
   if !t.flags.nullable && isVoidT t then isNoneV x
-  else if !t.flags.nullable && isUserTy t then typeOnlyB env t x
+  else if !t.flags.nullable && isUserTyC08 t then typeOnlyB env t x
   else satB E env t x
 
 /-- what assignment to field `f` demands of the value (`Attribute.__set__`) -/
@@ -115,7 +115,7 @@ def isJsonPrimTy : PTy → Bool
 validator (`validatorOf_userDefined` proves it of the IR-level generator model; the harness should
 evaluate this on every environment it sends, like `envWF`) -/
 def attrFlagsOk (env : Env) : Bool :=
-  env.structs.all fun s => s.allAttrs.all fun f => !f.attrUserDefined || isUserTy f.ty
+  env.structs.all fun s => s.allAttrs.all fun f => !f.attrUserDefined || isUserTyC08 f.ty
 
 /-- what reading field `f` gives after `x` was successfully assigned to it: the value itself for a
 field of a user type (stored by reference), its normalisation otherwise. (Assigning None to a
